@@ -317,6 +317,20 @@ def _pack_case(case):
             return "random() produced %r, which pack/unpack rejects with %s: %s" % (rv, type(e).__name__, e)
         if back != rv:
             return "random() produced %r, unpack(pack(.)) gives %r" % (rv, back)
+    if case.get("grow") and s[0] in ("list", "rep") and not secret:
+        # the record format gets another field AFTER it has been used (the program extends the list of packers it had handed to
+        # PackList, or the inner record of a table): packing, the reported width and unpacking all follow the new layout
+        inner = pkr if s[0] == "list" else pkr.packer
+        if isinstance(inner, ns.pk.PackList):
+            inner.lst.append(ns.pk.PackIntMod(11))
+            v2 = (v + [7]) if s[0] == "list" else [row + [7] for row in v]
+            bits2 = pkr.pack(v2)
+            want_bits = bitlen_ref(s) + 4 * (1 if s[0] == "list" else s[2])
+            if len(bits2) != want_bits or pkr.bitlen() != want_bits:
+                return "after a field was appended to a record format already in use: pack gives %d bits, bitlen() says %d, the new layout needs %d" % (len(bits2), pkr.bitlen(), want_bits)
+            back = plainify(ns, pkr.unpack([1] * off + bits2, off))
+            if back != v2:
+                return "after a field was appended to a record format already in use: unpack(pack(%r)) returned %r" % (v2, back)
     if case.get("broken") is not None:
         mode = case.get("broken_mode", "normal")
         try:
@@ -351,6 +365,7 @@ def pack_shard(seed, n_examples):
                 "offset": draw(st.integers(0, 3)), "b": b, "p": draw(st.sampled_from(["bn128", "bls12-381", "curve25519"]))}
         if draw(st.integers(0, 3)) == 0:
             case["random_seed"] = draw(st.integers(0, 1 << 30))
+        case["grow"] = draw(st.booleans())
         if not case["secret"] and draw(st.booleans()):
             case["broken"] = break_value(draw, s, case["value"])
             case["broken_mode"] = draw(st.sampled_from(["normal", "ignore", "false-guard"]))
